@@ -331,11 +331,15 @@ def solo_families(kind, kt, vt):
             "get-same": [S("Get", "k1")], "get-mate": [S("GetWithTTL", "k2")], "get-unrelated": [S("GetWithExpiration", "k60")], "get-absent": [S("Get", "k61")],
             "count": [S("Count")],
         }
+    # a delete that leaves its bucket empty on a table at its shrink threshold: the writer is stopped at every step of the shrink
+    shrink_pin = pin_of({"k1": (FOCUS, 1), "k2": (OTHER, 2), "k60": (OTHER, 3), "k61": (OTHER, 4), "k3": (FOCUS2, 3)})
+    shrink_pre = [S("BulkStore", lo=1, hi=thr + slots + 2), S(st, "k1", v()), S(st, "k2", v()), S(st, "k60", v()), S("BulkDelete", lo=1, hi=thr + slots + 2)]
+    writers["shrink"] = (shrink_pre, [S("Delete", "k1")])
     for wn, (pre, w) in writers.items():
         for rn, r in readers.items():
             if wn == "clear" and rn in ("loadorstore-hit", "loadorcompute-hit"):
                 continue  # after Clear published, the key is absent and the call is a get-or-CREATE (a writer): outside C16
-            sc = base("S-%s-vs-%s/%s[%s]" % (wn, rn, kind, kt), kind, kt, vt, pin, pre, [w, r], ["k1", "k2", "k3"], {"kind": "solo", "writer": 1, "reader": 2, "parkat": -1, "ownmax": 200})
+            sc = base("S-%s-vs-%s/%s[%s]" % (wn, rn, kind, kt), kind, kt, vt, shrink_pin if wn == "shrink" else pin, pre, [w, r], ["k1", "k2", "k3"], {"kind": "solo", "writer": 1, "reader": 2, "parkat": -1, "ownmax": 200})
             fam.append(sc)
     return fam
 
